@@ -201,7 +201,7 @@ func Property() runner.Property {
 	return runner.Property{
 		ID:           "C03",
 		Level:        "model_checking",
-		QuickBudgetS: 240, ThoroughBudgetS: 3000,
+		QuickBudgetS: 600, ThoroughBudgetS: 3000,
 		Rule: "whole controller (real Builder.Create with lister, ticker, watcher, sessions, cache, root subscription, publisher) against a scripted API server; refresh period 3s, watch retry 1s, virtual time; server histories of <= 4 mutations over 2 keys (label flips in and out of the controller filter), some delayed past the first relist; fault scenarios enumerated: watch never connects (error forever), watch closes after k frames, dropped / duplicated frames, status and bookmark frames, slow first list racing with watch events, list slower than the period; schedules explored within d deviations of the default schedule (d=2 quick, 3 thorough), timers racing with computation; oracle when the system is quiescent more than one period after the last server change: cache = accepted(server); cache read at the instant Ready() closed is a real accepted content; an unfiltered subscriber's events never regress a version, account for the cache, and Cache().Get after an event is never older than it; at most one List in flight; Close returns and nothing leaks",
 		Assumptions: []string{
 			"deviation-bounded (whole-controller executions have 300-900 steps); the unbounded counterparts are the narrow seams of C01/C02 (reconciliation), C04 (watcher), C13 (lister/ticker), C05 (fan-out)",
